@@ -228,12 +228,17 @@ class IO:
         subset = self._subset(sim, op) if kind == "export" else None
         if op.get("sweep"):
             return self._sweep(sim, op, fmt, subset, kind)
-        d = self.fresh(f"{kind}-{fmt}")
+        reuse = kind == "save" and op.get("reuse_dir") and sim.saves.get("internal") and not op.get("fault")
+        if reuse:
+            d = sim.saves["internal"]["dir"]
+            sim.count("io_save_into_same_dir")
+        else:
+            d = self.fresh(f"{kind}-{fmt}")
         pre = sim.pre["deep"] if sim.pre.get("deep") is not None else observe.deep(tr, len(sim.emissions))
         _, exc, seam = self._armed(sim, op, d, lambda dd: self._write(sim, fmt, dd, subset, op.get("overwrite", False)), "w")
         if seam == "twin_failed":
             return None
-        out = {"resolved": {"fmt": fmt, "subset": None if subset is None else sorted(subset)}, "tags": [fmt] + ([] if subset is None else ["subset"] if subset else ["subset", "empty_selection"]), "io": None if (seam is None or not seam.fired) else list(seam.fired[:2])}
+        out = {"resolved": {"fmt": fmt, "subset": None if subset is None else sorted(subset)}, "tags": [fmt] + ([] if subset is None else ["subset"] if subset else ["subset", "empty_selection"]) + (["pos_disabled"] if fmt == "internal" and tr.segmentation is not None and tr.features.position_key not in tr.annotators.features else []), "io": None if (seam is None or not seam.fired) else list(seam.fired[:2])}
         injected = isinstance(exc, InjectedOSError) or (exc is not None and seam.fired is not None and isinstance(exc, OSError))
         if exc is None:
             out["cls"] = "accepted"
@@ -264,6 +269,11 @@ class IO:
                 return out
             sim.guard("export_crash", f"{fmt} {out['exc']} {out.get('msg')}")
         if out["cls"] == "accepted":
+            if reuse and sim.active("C14"):
+                # the second save into a directory must replace everything the first one wrote
+                self._roundtrip_compare(sim, op, fmt, d, out, with_pos=True, why="after saving again into the same directory")
+                if sim.violations:
+                    return out
             if kind == "save" and seam.fired is None:
                 self._remember(sim, fmt, d)
             if sim.active("C15") and subset is not None:
